@@ -355,9 +355,20 @@ def build_results(case: dict) -> list:
             r["goal"],
             None if r["max_fes_extra"] is None else tot_fe + r[
                 "max_fes_extra"], r["max_t"])
-        res.append(sut("from_packing_and_end_result",
-                       pr.from_packing_and_end_result, er, y, factories,
-                       cache=cache))
+        bb = r.get("bounds_kept")
+        if bb is None:
+            res.append(sut("from_packing_and_end_result",
+                           pr.from_packing_and_end_result, er, y, factories,
+                           cache=cache))
+        else:
+            # a caller that computes only some of the bin-count bounds for
+            # this record (records of one table may carry different sets)
+            keys = sorted(pr._DEFAULT_BOUNDS)
+            sub = {k: pr._DEFAULT_BOUNDS[k] for i, k in enumerate(keys)
+                   if bb[i % len(bb)]} or {keys[0]: pr._DEFAULT_BOUNDS[keys[0]]}
+            res.append(sut("from_packing_and_end_result",
+                           pr.from_packing_and_end_result, er, y, factories,
+                           sub))
     return res
 
 
@@ -484,7 +495,10 @@ def check_stats_table(ctx: Ctx, case: dict) -> None:
         # the one attribute of the finding is still compared
         ctx.rec.exclude(F_MAXTIME)
         modulo_f13 = True
-    res = build_results(case)
+    # (statistics need identical bin-count bounds within a group: the
+    # per-record subsets of the result tables are not used here)
+    res = build_results({**case, "recs": [{**r, "bounds_kept": None}
+                                          for r in case["recs"]]})
     stats: list = []
     sut("from_packing_results", ps.from_packing_results, res, stats.append)
     groups = {(r["algo"], r["inst"], r["obj"], r["enc"])
